@@ -228,6 +228,34 @@ def main(level='full'):
     for t in ['0101', '01 01', '0_1', '2', '0b1', '\t1']:
         d.cmp(('parse01', t), lambda: R.bitarray(t), lambda: M.bitarray(t))
 
+    # --- Python ints that do not fit Py_ssize_t
+    for s in ('', '0110'):
+        for B in (2 ** 63, -2 ** 63 - 1, 2 ** 63 - 1, -2 ** 63, 2 ** 200):
+            a, m = pair(s)
+            d.cmp(('big-lshift', s, B), lambda: a << B, lambda: m << B)
+            d.cmp(('big-rshift', s, B), lambda: a >> B, lambda: m >> B)
+            d.cmp(('big-ilshift', s, B), lambda: R.bitarray(s).__ilshift__(B), lambda: M.bitarray(s).__ilshift__(B))
+            if B < 0 or not s:
+                d.cmp(('big-mul', s, B), lambda: a * B, lambda: m * B)
+            d.cmp(('big-getitem', s, B), lambda: a[B], lambda: m[B])
+            d.cmp(('big-slice', s, B), lambda: a[B:], lambda: m[B:])
+            d.cmp(('big-slice2', s, B), lambda: a[:B:2], lambda: m[:B:2])
+            d.cmp(('big-find', s, B), lambda: a.find(1, B), lambda: m.find(1, B))
+            d.cmp(('big-find2', s, B), lambda: a.find(1, 0, B), lambda: m.find(1, 0, B))
+
+            def ins(mod):
+                x = mod.bitarray(s)
+                x.insert(B, 1)
+                return x
+            d.cmp(('big-insert', s, B), lambda: ins(R), lambda: ins(M))
+
+            def pp_(mod):
+                x = mod.bitarray(s)
+                return x.pop(B), x
+            d.cmp(('big-pop', s, B), lambda: pp_(R), lambda: pp_(M))
+    for B in (2 ** 63, 2 ** 100, -2 ** 63 - 1):
+        d.cmp(('big-ctor', B), lambda: R.bitarray(B), lambda: M.bitarray(B))
+
     # --- little-endian bitarrays (a user can hand one to bitstring): conversions, propagation of the endianness, mixing
     def en(x):
         return (x.endian, x.to01()) if type(x).__name__ in ('bitarray', 'frozenbitarray') else x
